@@ -6,6 +6,7 @@
 use vstd::prelude::*;
 use std::collections::HashMap;
 verus! {
+//@prelude std_combinators
 broadcast use vstd::std_specs::hash::group_hash_axioms;
 
 
